@@ -54,9 +54,10 @@ def growth(tier):
             if n_fail > cap:
                 return {"name": f"scale/{fam}", "ok": True, "detail": dict(detail, note=f"depth grows but reaches the limit only beyond {cap} atoms (outside the claim)")}
         else:
-            n_wit = 1200 if tier == "quick" else 3000
-            if fam in ("ring", "star", "isolated", "pairs"):
-                n_wit = 3000 if tier == "quick" else 5000
+            # no growth seen: one real run at a size "in the thousands" (the families whose refinement depth
+            # grows linearly with size get the larger sizes that fit the time budget)
+            n_wit = {"chain": 2600, "labelled-chain": 2200, "peptide": 2400, "comb": 2400, "ladder": 2400}.get(fam, 3000) if tier == "quick" else \
+                    {"chain": 5000, "labelled-chain": 4000, "peptide": 5000, "comb": 5000, "ladder": 5000}.get(fam, 5000)
             detail["witness_size"] = n_wit
         rc, res = _run(["run", fam, str(n_wit)], 3000)
         detail["scaled_run"] = res
